@@ -109,6 +109,10 @@ func c01LongBulks() [][]refdb.Doc {
 	}
 	res = append(res, mk(400))
 	for i := 0; i < 198; i++ {
+		if i == 4 || i == 6 { // the previous bulk delivered again as a whole (the proxy's retry after a lost acknowledgement)
+			res = append(res, res[len(res)-1])
+			continue
+		}
 		res = append(res, mk(1))
 	}
 	res = append(res, mk(40))
@@ -761,7 +765,7 @@ func TestVerifC01(t *testing.T) {
 	c01LongHistory(r, e)
 	ev := r.Get("evaluations")
 	r.Finish(t, "fault_enumeration",
-		fmt.Sprintf("stage plans %v (ingest per stage; last stage verifies only): stage 1 from an empty directory; every crash state of each stage's file-operation journal (Model A: every prefix x every torn length of the in-flight write; Model B: additionally every cut of unsynced tails per file and lost unsynced overwrites), de-duplicated by a canonical hash (fraction ULIDs renamed in creation order), is recovered by the real FracManager.Load in a child process, checked (every document of every bulk: fetch byte-for-byte + findable by each token; acked => present, unacked => wholly present or wholly absent, never-sent => absent), then used as the base of the next stage. Torn lengths: every byte length for the 2-restart plan, stride 16 + header borders for the deeper plan. Plus one large-block history: a 2500-document bulk (a meta block far over 64 KiB) between two small ones, then three plain restarts, one of them after an interrupted start; and one long history: 310 bulks through one index worker (a 400-document bulk, 198 single documents, a 40-document bulk, 60 single documents, ten 3-document bulks), then two plain restarts. A subset of stage-1 states is validated against a child that really dies at that journal position (killat_conformance_checked). distinct_nontrivial = distinct (depth, canonical directory, acked set) states recovered", planDesc),
+		fmt.Sprintf("stage plans %v (ingest per stage; last stage verifies only): stage 1 from an empty directory; every crash state of each stage's file-operation journal (Model A: every prefix x every torn length of the in-flight write; Model B: additionally every cut of unsynced tails per file and lost unsynced overwrites), de-duplicated by a canonical hash (fraction ULIDs renamed in creation order), is recovered by the real FracManager.Load in a child process, checked (every document of every bulk: fetch byte-for-byte + findable by each token; acked => present, unacked => wholly present or wholly absent, never-sent => absent), then used as the base of the next stage. Torn lengths: every byte length for the 2-restart plan, stride 16 + header borders for the deeper plan. Plus one large-block history: a 2500-document bulk (a meta block far over 64 KiB) between two small ones, then three plain restarts, one of them after an interrupted start; and one long history: 310 bulks through one index worker (a 400-document bulk, 198 single-document bulks - two of them a repeat of the bulk before -, a 40-document bulk, 60 single documents, ten 3-document bulks), then two plain restarts. A subset of stage-1 states is validated against a child that really dies at that journal position (killat_conformance_checked). distinct_nontrivial = distinct (depth, canonical directory, acked set) states recovered", planDesc),
 		map[string]any{
 			"states":                        r.DistinctCount("nontrivial"),
 			"transitions":                   ev,
